@@ -25,9 +25,15 @@ def main():
     demo = os.path.join(wt, "demo.cpp")
     meta = {"id": sid, "property": prop, "confirmed": {}, "checks": {}}
     top = open(demo).read(3000)
-    m = re.search(r"(g\+\+[^\n]*demo\.cpp[^\n]*)", top)
-    cmd = m.group(1).strip().rstrip("*/ ").strip() if m else "g++ -std=c++17 -I include demo.cpp -o demo -pthread"
-    cmd = cmd.replace("`", "")
+    m = re.search(r"((?:g\+\+|clang\+\+(?:-14)?)[^\n]*demo\.cpp[^\n]*)", top)
+    cxx, flags = "g++", ["-std=c++17", "-DASIO_STANDALONE", "-pthread"]
+    if m:
+        toks = re.split(r"\s+", m.group(1).split("&&")[0].split(";")[0].replace("`", "").strip().rstrip("*/ "))
+        cxx = toks[0]
+        flags = [t for t in toks[1:] if re.match(r"-(std=|D|O|l|f|g|pthread|W)", t)]
+        if not any(t.startswith("-std") for t in flags):
+            flags.insert(0, "-std=c++17")
+    cmd = "%s %s -I include demo.cpp -o demo" % (cxx, " ".join(flags))
     meta["demo_build"] = cmd
     # without the change
     rc, out = sh("git apply -R mutation.patch", wt)
@@ -83,6 +89,7 @@ def main():
         if official:
             sh("git -C /repo checkout -- .")
         sh("python3 tools/extract.py", VERIF)
+        sh("python3 tools/cxx2lean.py", VERIF)
     json.dump(meta, open(os.path.join(d, "meta.json"), "w"), indent=1)
     print(json.dumps({"id": sid, "confirmed": meta["confirmed"]["ok"], "demo": (meta["confirmed"]["demo_without_change_exit"], meta["confirmed"]["demo_with_change_exit"]),
                       "suite": meta["confirmed"]["suite_with_change_exit"],
